@@ -41,6 +41,9 @@ func genCase(maxOps int, crash bool) func(t *rapid.T) Case {
 				o.N = rapid.IntRange(0, 15).Draw(t, "n")
 			case "rollback":
 				o.N = rapid.IntRange(0, 6).Draw(t, "n")
+			case "reopen":
+				o.Assert = kit.Pick(t, "assert", []string{"", "", "holds", "holds", "beyond", "fails"})
+				o.N = rapid.IntRange(0, 6).Draw(t, "back")
 			case "rollbackB":
 				o.N = rapid.IntRange(0, 8).Draw(t, "n")
 				if rapid.IntRange(0, 7).Draw(t, "far") == 0 {
@@ -296,6 +299,22 @@ func (r *runner) apply(op Op) bool {
 		return r.rollbackBlocks(op.N)
 	case "reopen":
 		r.e.Close()
+		ft := len(r.m.Filters) - 1
+		switch op.Assert {
+		case "holds":
+			h := max(0, ft-op.N)
+			r.e.Assert = &headerfs.FilterHeader{Height: uint32(h), FilterHash: r.m.Filters[h]}
+			r.v.Class("reopen:assertion-holds")
+		case "beyond":
+			r.e.Assert = &headerfs.FilterHeader{Height: uint32(ft + 1 + op.N), FilterHash: chainhash.HashH([]byte("not yet"))}
+			r.v.Class("reopen:assertion-beyond-tip")
+		case "fails":
+			h := max(0, ft-op.N)
+			r.e.Assert = &headerfs.FilterHeader{Height: uint32(h), FilterHash: chainhash.HashH(append([]byte("wrong"), r.m.Filters[h][:]...))}
+			// the store is purged and starts again from the genesis entry
+			r.m.Filters = r.m.Filters[:1]
+			r.v.Class("reopen:assertion-fails(reset)")
+		}
 		if err := r.e.Open(); err != nil {
 			r.v.Fail("C07/reopen/open-fails", "stores cannot be reopened: %v", err)
 			return false
@@ -563,6 +582,9 @@ func indexByte(s string, b byte) int {
 	return -1
 }
 
+// imageSeq numbers the crash images restarted by this process.
+var imageSeq uint64
+
 // checkImage restarts on a crash image and checks the C08 obligations. The
 // returned string starts with a short symptom followed by ':'.
 func checkImage(cp crashPoint) string {
@@ -572,6 +594,23 @@ func checkImage(cp crashPoint) string {
 	}
 	defer os.RemoveAll(dir)
 	e := &Env{Dir: dir, Params: baseWorld}
+	// Every third image is restarted the way a client with a configured
+	// filter-header assertion restarts: with an assertion that holds (a
+	// height both the state before and the state after the interrupted step
+	// hold, with the same value), and every third with one above both tips.
+	// Neither may change what the restart has to deliver.
+	imageSeq++
+	common := min(len(cp.before.Filters), len(cp.after.Filters)) - 1
+	for common > 0 && cp.before.Filters[common] != cp.after.Filters[common] {
+		common--
+	}
+	switch imageSeq % 3 {
+	case 1:
+		h := max(0, common-int(imageSeq/3)%3)
+		e.Assert = &headerfs.FilterHeader{Height: uint32(h), FilterHash: cp.before.Filters[h]}
+	case 2:
+		e.Assert = &headerfs.FilterHeader{Height: uint32(max(len(cp.before.Filters), len(cp.after.Filters)) + 3), FilterHash: chainhash.HashH([]byte("not yet"))}
+	}
 	if err := e.Open(); err != nil {
 		return "open-fails: stores do not open after the crash: " + err.Error()
 	}
